@@ -650,3 +650,8 @@ func TestScalars(t *testing.T) {
 		Rule:    "the scalar arithmetic CKD relies on, through the curves' own NewPrivateKey / Key.Shift: k valid iff 0 < k < n; private Shift by I_L invalid (ErrInvalidKey) iff I_L >= n or I_L + k = 0 mod n, else (I_L + k mod n) and its point; I_L at 0, n-k, n-k+-1, n, n+-1, 2^256-1, k, sums in [n, 2^256), random; reference: affine big-integer curve; all non-trivial",
 	})
 }
+
+// coverage-guided fuzzing over the structured generator (thorough tier)
+func FuzzGenDerive(f *testing.F) {
+	h.FuzzSub(f, h.Sub[deriveCase]{Prop: "C02", Name: "derive", Gen: genDerive, Check: checkDerive})
+}
